@@ -31,6 +31,9 @@ type instr struct {
 	Add int    `json:"add"`
 	T   int    `json:"t"`
 	Chs []int  `json:"chs"`
+	// selsend: the channels and the values of the send cases
+	Schs []int `json:"schs"`
+	Vs   []int `json:"vs"`
 }
 
 type prog struct {
@@ -139,6 +142,15 @@ func concretise(p prog) string {
 				fmt.Fprintf(&b, "%sselect {\n", indent)
 				for _, c := range i.Chs {
 					fmt.Fprintf(&b, "%scase v := <-c%d:\n%s\tacc += v\n", indent, c, indent)
+				}
+				fmt.Fprintf(&b, "%s}\n", indent)
+			case "selsend":
+				fmt.Fprintf(&b, "%sselect {\n", indent)
+				for _, c := range i.Chs {
+					fmt.Fprintf(&b, "%scase v := <-c%d:\n%s\tacc += v\n", indent, c, indent)
+				}
+				for k, c := range i.Schs {
+					fmt.Fprintf(&b, "%scase c%d <- %d:\n", indent, c, i.Vs[k])
 				}
 				fmt.Fprintf(&b, "%s}\n", indent)
 			case "print":
